@@ -63,10 +63,21 @@ def _job(args):
 
     spec = H.REGISTRY[spec_id]
     t0 = time.time()
+    trace = os.environ.get("VK_SLOW_TRACE")  # diagnostics: dump the Python stack of a job that runs longer than N seconds
+    if trace:
+        import faulthandler
+
+        _tf = open(f"/tmp/vk_slow_{os.getpid()}.txt", "a")
+        _tf.write(f"\n=== {spec_id} @ {cfg}\n")
+        _tf.flush()
+        faulthandler.dump_traceback_later(float(trace), repeat=True, file=_tf)
     try:
         res = run_spec(spec, cfg, tier, seed)
     except BaseException as e:
         res = [H.ObResult(prop=prop, ob=spec_id, config=str(cfg), function=spec.function, verdict="error", detail=f"{type(e).__name__}: {e}\n{traceback.format_exc(limit=10)}")]
+    if trace:
+        faulthandler.cancel_dump_traceback_later()
+        _tf.close()
     out = []
     for r in res:
         r.engine = spec.engine if r.engine == "E2" else r.engine
@@ -276,15 +287,96 @@ def main(argv=None):
     # longest first is unknown; shuffle deterministically so slow configs spread over workers
     results = []
     if a.jobs > 1 and len(jobs) > 1:
-        ctx = mp.get_context("fork")
-        with ctx.Pool(min(a.jobs, len(jobs))) as pool:
-            for out in pool.imap_unordered(_job, jobs, chunksize=1):
-                results.extend(out)
+        results = run_pool(jobs, min(a.jobs, len(jobs)), hard_limit_s=float(os.environ.get("VK_JOB_LIMIT_S", 1200 if tier == "quick" else 10800)))
     else:
         for j in jobs:
             results.extend(_job(j))
     results.sort(key=lambda r: (r["ob"], r["config"]))
     return finish(prop, tier, seed, specs, results, time.time() - t0, a)
+
+
+def _worker_loop(conn):
+    while True:
+        try:
+            msg = conn.recv()
+        except EOFError:
+            return
+        if msg is None:
+            return
+        idx, job = msg
+        conn.send((idx, _job(job)))
+
+
+def run_pool(jobs, nproc, hard_limit_s):
+    """own process pool (one pipe per worker) with a HARD wall-clock limit per job enforced by the parent: a job that overruns it
+    (a solver query that ignores both its soft timeout and z3's interrupt, an endless loop in changed code under contract) has
+    its worker killed and is reported as UNDECIDED - never as a verdict - and the run goes on with a fresh worker."""
+    from multiprocessing.connection import wait
+
+    from . import harness as H
+
+    ctx = mp.get_context("fork")
+    pending = list(range(len(jobs)))[::-1]
+    results, workers = [], []
+
+    def spawn():
+        pc, cc = ctx.Pipe()
+        pr = ctx.Process(target=_worker_loop, args=(cc,), daemon=True)
+        pr.start()
+        cc.close()
+        return {"proc": pr, "conn": pc, "idx": None, "t0": None}
+
+    def assign(w):
+        if pending:
+            w["idx"] = pending.pop()
+            w["t0"] = time.time()
+            w["conn"].send((w["idx"], jobs[w["idx"]]))
+        else:
+            w["idx"] = None
+
+    def fail(w, why):
+        prop, spec_id, cfg, tier, seed = jobs[w["idx"]]
+        spec = H.REGISTRY[spec_id]
+        d = H.ObResult(prop=prop, ob=spec_id, config=str(cfg), function=spec.function, verdict="undecided", detail=why).asdict()
+        d["job_wall_s"] = round(time.time() - w["t0"], 3)
+        results.append(d)
+        try:
+            w["proc"].kill()
+            w["proc"].join(10)
+            w["conn"].close()
+        except Exception:
+            pass
+
+    for _ in range(nproc):
+        w = spawn()
+        workers.append(w)
+        assign(w)
+    while any(w["idx"] is not None for w in workers):
+        busy = [w for w in workers if w["idx"] is not None]
+        ready = wait([w["conn"] for w in busy], timeout=2.0)
+        for w in busy:
+            if w["conn"] in ready:
+                try:
+                    idx, out = w["conn"].recv()
+                    results.extend(out)
+                    assign(w)
+                except (EOFError, OSError):
+                    fail(w, "worker process died while running this job")
+                    workers[workers.index(w)] = nw = spawn()
+                    assign(nw)
+            elif time.time() - w["t0"] > hard_limit_s:
+                fail(w, f"hard wall-clock limit of {hard_limit_s:.0f} s per job reached; worker killed (the job neither finished nor reacted to its solver budgets)")
+                workers[workers.index(w)] = nw = spawn()
+                assign(nw)
+    for w in workers:
+        try:
+            w["conn"].send(None)
+            w["proc"].join(5)
+            if w["proc"].is_alive():
+                w["proc"].kill()
+        except Exception:
+            pass
+    return results
 
 
 def finish(prop, tier, seed, specs, results, wall, a):
